@@ -169,10 +169,24 @@ func (x *Exec) callSite(st *State, fr *Frame, kind, callee string, args, rets []
 		if ca.Clause.Expr == nil {
 			continue
 		}
+		if ca.Assume {
+			t, ok := env.evalBool(ca.Clause.Expr)
+			if !ok {
+				x.unsupported(name + ": " + env.err)
+				continue
+			}
+			x.trust("assumed at call site in " + x.fname + ": " + ca.Pattern.Src + " ==> " + ca.Clause.Src)
+			x.assume(tImplies(hyp, t))
+			continue
+		}
 		x.pure++
 		t, ok := env.evalBool(ca.Clause.Expr)
 		x.pure--
 		if !ok {
+			if env.missingEvent {
+				x.prove(st, name, "call-site", ca.Pattern.Src+" assert "+ca.Clause.Src+"   ["+env.err+"]", tImplies(hyp, tFalse), where)
+				continue
+			}
 			x.unsupported(name + ": " + env.err)
 			continue
 		}
@@ -219,6 +233,11 @@ func (x *Exec) doCall(st *State, fr *Frame, at ssa.Instruction, cc *ssa.CallComm
 	if b, ok := cc.Value.(*ssa.Builtin); ok && !cc.IsInvoke() {
 		rets := x.builtin(st, fr, b, cc, args, retTo)
 		x.setRet(st, fr, retTo, rets, ev)
+		return true
+	}
+	if x.sortCall(st, fr, callee, args) {
+		x.setRet(st, fr, retTo, nil, ev)
+		x.callSite(st, fr, kind, callee, args, nil, "after", at)
 		return true
 	}
 	sig := cc.Signature()
@@ -379,16 +398,24 @@ func (x *Exec) applyContract(st *State, fr *Frame, fc *FuncContract, callee stri
 			x.havocAll(st)
 		} else {
 			x.bumpWater(st)
+			// all locations are evaluated in the pre-state, then forgotten
+			var all []modLoc
+			failed := false
 			for _, m := range fc.Modifies {
 				x.pure++
 				locs, ok := env.evalModifies(m)
 				x.pure--
 				if !ok {
 					x.unsupported("modifies of " + callee + ": " + env.err)
-					x.havocAll(st)
+					failed = true
 					break
 				}
-				for _, l := range locs {
+				all = append(all, locs...)
+			}
+			if failed {
+				x.havocAll(st)
+			} else {
+				for _, l := range all {
 					x.havocLoc(st, l)
 				}
 			}
@@ -708,5 +735,45 @@ func (x *Exec) doCallback(st *State, fr *Frame, fc *FuncContract, callee string,
 	nf.eventIdx = -1
 	nf.cbEffect, nf.cbClosure, nf.cbRetTo, nf.cbResTypes, nf.cbCallee = eff, cl, retTo, resTypes, callee
 	st.frames = append(st.frames, nf)
+	return true
+}
+
+// sortCall models sort.Sort/Stable/Slice/SliceStable on a boxed slice: the elements of the slice are
+// permuted (here: forgotten); nothing else changes. What the order means afterwards is stated by the
+// caller with `after call sort.Sort assume ...` (trusted: the sort yields an ordered permutation).
+func (x *Exec) sortCall(st *State, fr *Frame, callee string, args []Val) bool {
+	switch callee {
+	case "sort.Sort", "sort.Stable", "sort.Slice", "sort.SliceStable":
+	default:
+		return false
+	}
+	if len(args) == 0 || args[0].K != KIface {
+		return false
+	}
+	b, ok := x.boxed[args[0].Fs[1].T.S]
+	if !ok {
+		return false
+	}
+	stt, ok := under(b.Typ).(*types.Slice)
+	if !ok {
+		return false
+	}
+	x.trust("library-model " + callee + " permutes the elements of its slice argument and changes nothing else")
+	keys := map[string]string{}
+	keysOfElem(stt.Elem(), keys)
+	if _, isStruct := structOf(stt.Elem()); isStruct {
+		for _, k := range sortedKeys(keys) {
+			x.heapHavocKey(st, k, keys[k])
+		}
+		return true
+	}
+	for _, k := range sortedKeys(keys) {
+		h := x.heapTerm(nil, st, k, keys[k])
+		f := x.fresh("sorted", arrElem(keys[k]))
+		x.heapSet(st, k, tStore(h.T, b.Fs[0].T, f))
+		if strings.HasSuffix(k, "^") {
+			x.assume(Term{fmt.Sprintf("(forall ((si Int)) (! (< (select %s si) %s) :pattern ((select %s si))))", f.S, st.water.S, f.S), sBool})
+		}
+	}
 	return true
 }
